@@ -11,6 +11,7 @@ ambient  ar=<n>,aq=<n>
 schedule labels separated by `,` (`-` = none). `S` starts the request (the worker runs until it blocks); the worker
          settles after every label except the arming labels PFo/PFc/HG:
          S  R<k>:<code>:<d><t>  X<k>:<reason>  PFo|PFc  HG  PT  GT  DR  CC  TM<code>
+         B<k>:<code>:<d><t> (head of a streamed response: the worker forwards it and waits for the body)  E<k> (body ended)
 -/
 namespace MosnVerif.Drive.Downstream
 open MosnVerif.Drive MosnVerif.Model.Downstream MosnVerif.Gen.ProxyPhase MosnVerif.Gen.ProxyReason
@@ -84,6 +85,19 @@ def parseLabel (s : String) : Option Label :=
       let r ← reasonOfName r
       pure (.upReset k r)
     | _ => none
+  else if s.startsWith "B" then
+    match (dropS s 1).splitOn ":" with
+    | [k, code, dt] => do
+      let k ← k.toNat?
+      let code ← code.toNat?
+      match dt.toList with
+      | [d, t] => do
+        let d ← b01 d.toString
+        let t ← b01 t.toString
+        pure (.upRespS k code d t)
+      | _ => none
+    | _ => none
+  else if s.startsWith "E" then (dropS s 1).toNat?.map Label.upEnd
   else none
 
 def parseSched (s : String) : Option (List Label) :=
@@ -189,6 +203,10 @@ def timeoutAfterStart : List Label → Bool
   | [] => false
   | .work :: r => r.any (fun l => match l with | .globalFire => true | _ => false)
   | _ :: r => timeoutAfterStart r
+
+def isStreamHead : Label → Bool
+  | .upRespS _ _ _ _ => true
+  | _ => false
 
 def isAttempt : Ev → Bool
   | .un _ => true
